@@ -179,6 +179,9 @@ func opKind(op byte) string {
 // LexOpts selects lexer options for a run.
 type LexOpts struct {
 	SkipMagic, Validate, EmitInvalid, AttCRC, Attachments bool
+	// CustomCodecs: the caller supplies its own zstd and lz4 decompressors (LexerOptions.Decompressors), lenient ones that
+	// do not verify the codecs' own checksums, so that only go/mcap's validation stands between damage and the caller
+	CustomCodecs bool
 	MaxRecord, MaxChunk                                   int
 }
 
@@ -212,6 +215,9 @@ func LexAll(r io.Reader, o LexOpts) (res *LexResult) {
 	}()
 	lo := &mcap.LexerOptions{SkipMagic: o.SkipMagic, ValidateChunkCRCs: o.Validate, EmitInvalidChunks: o.EmitInvalid,
 		ComputeAttachmentCRCs: o.AttCRC, MaxRecordSize: o.MaxRecord, MaxDecompressedChunkSize: o.MaxChunk, Decompressors: Decompressors()}
+	if o.CustomCodecs {
+		lo.Decompressors = CustomDecompressors()
+	}
 	if o.Attachments {
 		lo.AttachmentCallback = func(ar *mcap.AttachmentReader) error {
 			data, err := io.ReadAll(ar.Data())
@@ -264,6 +270,44 @@ func LexAll(r io.Reader, o LexOpts) (res *LexResult) {
 	}
 }
 
+// LexRetain lexes b with Next(nil) (or, with small, a fresh 4-byte buffer per call: too small for almost every record, so
+// that the lexer has to provide the memory), keeps every returned record and a snapshot of it, and reports how many
+// kept records changed by the time the read is over (C01: values already returned are not altered by later reads).
+func LexRetain(b []byte, skipMagic, validate, small bool) (res RetainResult) {
+	defer func() {
+		if p := recover(); p != nil {
+			res.End = "panic"
+		}
+	}()
+	lexer, err := mcap.NewLexer(bytes.NewReader(b), &mcap.LexerOptions{SkipMagic: skipMagic, ValidateChunkCRCs: validate, Decompressors: Decompressors()})
+	if err != nil {
+		res.End = "error"
+		return
+	}
+	defer lexer.Close()
+	type kept struct{ rec, snap []byte }
+	var all []kept
+	for {
+		var p []byte
+		if small {
+			p = make([]byte, 4)
+		}
+		_, rec, err := lexer.Next(p)
+		if err != nil {
+			res.End = ErrClass(err)
+			break
+		}
+		all = append(all, kept{rec, append([]byte{}, rec...)})
+	}
+	res.N = len(all)
+	for _, k := range all {
+		if !bytes.Equal(k.rec, k.snap) {
+			res.Changed++
+		}
+	}
+	return
+}
+
 // IterOpts selects how Reader.Messages is called.
 type IterOpts struct {
 	UseIndex   *bool  // nil: default
@@ -306,15 +350,16 @@ func ReadOpts(o IterOpts, mds *[]any) []mcap.ReadOpt {
 	}
 	var so, eo mcap.ReadOpt
 	legacy := o.Form == "legacy" || o.Form == "legacy-rev"
+	legacyS, legacyE := legacy || o.Form == "mixed-a", legacy || o.Form == "mixed-b"      // mixed: one bound through each API
 	if o.Start != nil {
-		if legacy {
+		if legacyS {
 			so = mcap.After(int64(*o.Start))
 		} else {
 			so = mcap.AfterNanos(*o.Start)
 		}
 	}
 	if o.End != nil {
-		if legacy {
+		if legacyE {
 			eo = mcap.Before(int64(*o.End))
 		} else {
 			eo = mcap.BeforeNanos(*o.End)
@@ -331,7 +376,19 @@ func ReadOpts(o IterOpts, mds *[]any) []mcap.ReadOpt {
 	}
 	if o.MdCallback {
 		opts = append(opts, mcap.WithMetadataCallback(func(m *mcap.Metadata) error {
-			*mds = append(*mds, MetadataEv(m))
+			ev := MetadataEv(m)
+			// exact canonical form (name and sorted key/value pairs) for multiset comparison by the drivers
+			keys := make([]string, 0, len(m.Metadata))
+			for k := range m.Metadata {
+				keys = append(keys, k)
+			}
+			sort.Strings(keys)
+			c := fmt.Sprintf("%q", m.Name)
+			for _, k := range keys {
+				c += fmt.Sprintf("|%q=%q", k, m.Metadata[k])
+			}
+			ev["canon"] = c
+			*mds = append(*mds, ev)
 			return nil
 		}))
 	}
